@@ -116,14 +116,14 @@ fn main() {
                 let g2 = setof(&case["g2"]);
                 let g1: Vec<usize> = s.iter().copied().filter(|x| !g2.contains(x)).collect();
                 let corr = case["corr"].as_str().unwrap();
-                let gk = if corr == "genesis" { "genesis" } else { "ok" };
+                let gk = if corr == "genesis" { "genesis" } else if corr == "epoch" { "epoch" } else { "ok" };
                 let nested = {
-                    let vote = vprev(if corr == "nested_genesis" { "genesis" } else { "ok" });
+                    let vote = vprev(if corr == "nested_genesis" { "genesis" } else if corr == "nested_epoch" { "epoch" } else { "ok" });
                     let signers: Vec<usize> = if corr == "nested_subquorum" { vec![1] } else { (1..=n).collect() };
                     CommitQC { message: vote.clone(), signers: bitmap(&signers, n), signature: agg_commit(&vote, &signers, if corr == "nested_badsig" { "other_vote" } else { "ok" }) }
                 };
                 let m1 = ReplicaTimeout { view: view_of(3, gk), high_vote: None, high_qc: None };
-                let m2 = ReplicaTimeout { view: view_of(if corr == "viewmismatch" { 4 } else if corr == "viewearlier" { 2 } else { 3 }, gk), high_vote: Some(v1(if corr == "hv_genesis" { "genesis" } else { "ok" })), high_qc: Some(nested) };
+                let m2 = ReplicaTimeout { view: view_of(if corr == "viewmismatch" { 4 } else if corr == "viewearlier" { 2 } else { 3 }, gk), high_vote: Some(v1(if corr == "hv_genesis" { "genesis" } else if corr == "hv_epoch" { "epoch" } else { "ok" })), high_qc: Some(nested) };
                 let m3 = ReplicaTimeout { view: view_of(3, gk), high_vote: Some(vprev("ok")), high_qc: None };
                 let mut map: BTreeMap<ReplicaTimeout, Signers> = BTreeMap::new();
                 let mut sigs = vec![];
